@@ -221,7 +221,7 @@ func cmdCheck(args []string) int {
 	if d == 0 {
 		d = 8 * time.Minute
 		if *tier == "thorough" {
-			d = 60 * time.Minute
+			d = 90 * time.Minute
 		}
 	}
 	cfg.Deadline = time.Now().Add(d)
